@@ -242,7 +242,7 @@ def run(rep, tier_, rng):
     for c in calls.values():
         regimes[c["regime"]] = regimes.get(c["regime"], 0) + 1
     run_and_report(rep, insts, calls, tag="C42_%s" % tier_, params={"sentence_timeout": 60, "single_timeout": 80},
-                   budget=max(30, (135 if q else 1100) - tgen),
+                   budget=max(30, (115 if q else 1100) - tgen), jobs=10,
                    rule="each evaluation = one call invertlaplace(F, t, method) of the current /repo code at mp.dps in {15,20,30(,50)}: "
                         "F from the pairs 1/(p+a), 1/((p+a)^2+b^2), (p+a)/((p+a)^2+b^2), p/(p^2+1), 1/p^n (n<=5), 1/(p(p+a)), 1/(p+a)^2, "
                         "1/sqrt(p^2+1), exp(-a sqrt p)/p with a,b in {1/2,1,2,3}; t rational in [0.01,10]; method talbot / stehfest / dehoog / "
